@@ -2,25 +2,25 @@
 """Regenerate DESIGN.md section 11.2 (per property: what was built) from /verif/evidence/*.json and the notes below."""
 import json, os
 NOTES = {
-"C01": "P: `n_modes` runs to min(shape) (zero modes included); tall shapes (40x4, 12x1) added; complex + randomized route: scipy `svds` refuses k = min(shape) (tallied refusal); HilbertEOF reference removes the mean of the imaginary part only",
-"C02": "P: six case groups (orders, index kinds, list item sample order, coords x names, flags, model level); a name clash with an existing dim is a tallied refusal when xeofs says so",
-"C03": "P: layered product (algebra layer x structure layer); clause `mode_selection` (list / reordered / [k] / scalar mode selections x normalized); provenance {refit, deferred, deserialized} in thorough",
-"C04": "P: `normalized` and call form {X and Y, X only, Y only} evaluated inside each case; provenances {refit, deferred+compute, deserialised, rotator_reused, model_reused}",
+"C01": "P: `n_modes` runs to min(shape) (zero modes included); tall shapes (40x4, 12x1) added; complex + randomized route: scipy `svds` refuses k = min(shape) (tallied refusal); HilbertEOF reference removes the mean of the imaginary part only; storage kinds: integer (int16..int64, uint8), float32, big-endian f8 (thorough f4-BE, float16) judged at the storage type's accuracy; user weights stored in reverse element order (`wpres=rev`)",
+"C02": "P: six case groups (orders, index kinds, list item sample order, coords x names, flags, model level); a name clash with an existing dim is a tallied refusal when xeofs says so; clause `transform_reordered_dims` (fitted preprocessor handed the same data with its dims stored in reverse)",
+"C03": "P: layered product (algebra layer x structure layer); clause `mode_selection` (list / reordered / [k] / scalar mode selections x normalized); provenance {refit, deferred, deserialized} in thorough; integer-typed user weights (`wkind`) and unsorted feature coordinates (`forder`) in the structure layer",
+"C04": "P: `normalized` and call form {X and Y, X only, Y only} evaluated inside each case; provenances {refit, deferred+compute, deserialised, rotator_reused, model_reused}; sweep `big` (60-sample, 45-56-feature noisy views: lossy default PCA pre-reduction) for multi.CCA, five cross-set classes and two rotators",
 "C05": "G: one lattice per (model, new data set): states = (model, subset), transitions = cover edges; coords classes incl. repeats combined with all-NaN samples; `normalized=True` on the base structure in quick",
 "C06": "P: reference 'deleted beforehand' is always a plain (time, f) array; a list sample missing in one item only may be refused or treated as deleted",
-"C07": "G: nodes are tuples of seven presentation coordinates (order, lat/lon/sample permutation, split, names, samples as one or two dims), depth = number of non-default coordinates (2 quick / 3 thorough); second base configuration with labelled user weights; thorough re-explores the quick graph under PYTHONHASHSEED 1 and 2; complex models compared up to a unit phase, POP up to a unit factor per quantity",
-"C08": "G: one path of length 1-2 per case; tolerance from the measured rounding error of forming the node; per-field option combinations; default float PCA pre-reduction under global factors; `effective_weight` clause per cell; for CPCCA fields with alpha < 1 only direction/fractions/correlations are demanded under a global factor",
-"C09": "P: alpha < 1 without PCA only on fields with non-singular covariance; Y sample labels {same, disjoint, overlapping, reversed}; the normalised accessors are called before anything is read",
-"C10": "P: seven identity families; constructor-parameter sweep with introspection guard and `stored_parameters` clause; complex PCA-all-vs-none compares reconstructions and patterns up to a common phase; the multi-set route is compared within its documented ridge (eps=1e-6) bound",
+"C07": "G: nodes are tuples of seven presentation coordinates (order, lat/lon/sample permutation, split, names, samples as one or two dims), depth = number of non-default coordinates (2 quick / 3 thorough); second base configuration with labelled user weights; thorough re-explores the quick graph under PYTHONHASHSEED 1 and 2; complex models compared up to a unit phase, POP up to a unit factor per quantity; wide base (exact solver requested for an inner truncation), `geometric@units` base (standardised fields whose spreads differ by 1e9)",
+"C08": "G: one path of length 1-2 per case; tolerance from the measured rounding error of forming the node; per-field option combinations; default float PCA pre-reduction under global factors; `effective_weight` clause per cell; for CPCCA fields with alpha < 1 only direction/fractions/correlations are demanded under a global factor; `UNITS` edges (global 1e-10..1e10), integer-typed data (`store`) and weights (`wstore`), sweep `pre` (options vs numpy-preprocessed matrix for ExtendedEOF(+PCA), HilbertEOF, OPA, POP, penalised SparsePCA, EOFRotator)",
+"C09": "P: alpha < 1 without PCA only on fields with non-singular covariance; Y sample labels {same, disjoint, overlapping, reversed}; the normalised accessors are called before anything is read; `illscale` and global `unit` dimensions; prime-length Hilbert pair",
+"C10": "P: seven identity families; constructor-parameter sweep with introspection guard and `stored_parameters` clause; complex PCA-all-vs-none compares reconstructions and patterns up to a common phase; the multi-set route is compared within its documented ridge (eps=1e-6) bound; SparsePCA `n_blocks` in {2,3}",
 "C11": "P: cross-set 'normalised scores orthonormal' checked as bi-orthonormality; sign and Varimax-criterion clauses on real loadings only; `reuse` dimension (same rotator object fitted twice)",
-"C12": "S: LIFO/structural default schedule (11.1); every 1-deviation schedule for EOF (2 layouts), POP, MCA in quick; thorough: EOF/POP/OPA/ExtendedEOF/MCA on four layouts, EOFRotator/CPCCA on one, 2 deviations for EOF single-chunk; Promax deferred rotators, ExtendedEOF with PCA pre-step, a lossy-sketch `solver_kwargs` configuration, a second compute(); deferred rotators compared with the same fixed-iteration rotation in memory",
+"C12": "S: LIFO/structural default schedule (11.1); every 1-deviation schedule for EOF (2 layouts), POP, MCA in quick; thorough: EOF/POP/OPA/ExtendedEOF/MCA on four layouts, EOFRotator/CPCCA on one, 2 deviations for EOF single-chunk; Promax deferred rotators, ExtendedEOF with PCA pre-step, a lossy-sketch `solver_kwargs` configuration, a second compute(); deferred rotators compared with the same fixed-iteration rotation in memory; models with lazily derived user weights (`EOF+w`, `MCA+w`) and preprocessing options (`EOF+opts`)",
 "C13": "G: histories over {compute, transform, codec direct/nc/json x placeholders}; inputs incl. auxiliary coords on stacked dims, 12-item lists, coordinate-named weights; predict is read before any transform; user attribute values themselves are not compared (the str()/literal_eval codec cannot round-trip them by construction)",
-"C14": "G: ten subjects (EOF, EOF with two sample dims, SparsePCA on a lossy randomized sketch, POP, OPA, CPCCA, MCA with n_pca_modes='all', EOF+Rotator, MCA+Rotator, EOF+Bootstrapper); op `accessors:normalized`; bootstrap members of rank-deficient resamples compared only on modes with variance",
-"C15": "P: six case kinds (threshold, solvers incl. antisymmetric exact-tie fields, kwargs, dask_lossy, model_seed, model_frac)",
-"C16": "P: added clause transform(S P^H) = S transform_components(P)^H (the only clause that sees a swapped exponent sign in both pattern maps)",
-"C17": "fault enumeration: 27 fault kinds x entry points (each also with `normalized=True` where the switch exists); a fault is presented to the same fitted object as its valid baseline call; controls (alpha=1.5, extra variable, extra score dim) must be accepted",
-"C18": "P: feedback matrix built in feature space from an independent PCA reduction; damped and growing oscillators",
-"C19": "P: data classes white / ar_mix / ar_mix_noise / osc_noise / cycle_dom (PC variances spanning 1e8-1e10); provenance {fresh, refit}",
+"C14": "G: ten subjects (EOF, EOF with two sample dims, SparsePCA on a lossy randomized sketch, POP, OPA, CPCCA, MCA with n_pca_modes='all', EOF+Rotator, MCA+Rotator, EOF+Bootstrapper); op `accessors:normalized`; bootstrap members of rank-deficient resamples compared only on modes with variance; subjects added since: EOFlist, EOFlist2s, MCA2s (two sample dims), multiCCA2s",
+"C15": "P: six case kinds (threshold, solvers incl. antisymmetric exact-tie fields, kwargs, dask_lossy, model_seed, model_frac); tall 80x8 matrices with one decade per mode (`steep`)",
+"C16": "P: added clause transform(S P^H) = S transform_components(P)^H (the only clause that sees a swapped exponent sign in both pattern maps); units coordinate; integer X; tall PCA shapes 80x8, 120x12",
+"C17": "fault enumeration: 27 fault kinds x entry points (each also with `normalized=True` where the switch exists); a fault is presented to the same fitted object as its valid baseline call; controls (alpha=1.5, extra variable, extra score dim) must be accepted; sample-count mismatch whose surplus samples are entirely NaN; broadcastable non-xarray weights",
+"C18": "P: feedback matrix built in feature space from an independent PCA reduction; damped and growing oscillators; `units` (ill-scaled variables), `gunit` (global tiny/huge units), provenance and two-sample-dim layouts",
+"C19": "P: data classes white / ar_mix / ar_mix_noise / osc_noise / cycle_dom (PC variances spanning 1e8-1e10); provenance {fresh, refit}; argument types, time-label kinds, long lag windows, global `unit`",
 "C20": "P: RNG replay is a fast path, otherwise all with-replacement resamples are searched; provenance {fresh, refit_same, refit_other}; model classes EOF, ComplexEOF, HilbertEOF (Hermitian clauses)",
 }
 rows = ["| ID | quick: cases / non-trivial / wall | states / transitions (model checking) | what was built, and what deviates from section 5 |", "|---|---|---|---|"]
